@@ -42,6 +42,7 @@ inductive MemTag
   | fces   -- `fces = malloc(nent * sizeof(*fces))` in `fcache_get_chunk`
   | data   -- `data = malloc(len)` in `fcache_get_chunk`
   | pio    -- `pio = malloc(sizeof *pio)` in `addrxlat_get_page`
+  | cb     -- `cb = malloc(sizeof *cb)` in `addrxlat_ctx_add_cb`
   deriving DecidableEq, Repr
 
 /-- something the library can hold -/
@@ -183,6 +184,59 @@ def fcachePread (cfg : Cfg) : Nat → Policy → Nat → Nat → Nat → List Ex
           match fcachePread cfg fuel pol' (len - partlen) fidx (pos + partlen) o with
           | ⟨.stuck, _, _⟩ => stuckOut orc
           | ⟨r, e2, o2⟩ => ⟨r, e ++ [.put f.c f.key] ++ e2, o2⟩
+
+/-- `fcache_put`: the entry `fcache_get_fb` hands back has no cache (`none`)
+when the data was read into the caller's bounce buffer; nothing is released then -/
+def fcachePut : Option Fce → List Ev
+  | some f => [.put f.c f.key]
+  | none => []
+
+/-- `fcache_get_fb(fc, fce, fidx, pos, fb, sz)`: the entry that holds `pos`, or —
+when fewer than `sz` bytes are left in that entry (the object straddles a
+cache-entry boundary) — the entry is released and the bytes are read into the
+bounce buffer (`none`: `fce->cache = NULL`) -/
+def fcacheGetFb (cfg : Cfg) (pol : Policy) (fidx pos sz : Nat) (orc : List Ext) : Out (Option Fce × Policy) :=
+  match fcacheGet cfg pol fidx pos orc with
+  | ⟨.stuck, _, _⟩ => stuckOut orc
+  | ⟨.err s, e, o⟩ => ⟨.err s, e, o⟩
+  | ⟨.ok (f, pol'), e, o⟩ =>
+      if f.len < sz then
+        match fcachePread cfg sz pol' sz fidx pos o with
+        | ⟨.stuck, _, _⟩ => stuckOut orc
+        | ⟨.ok pol2, e2, o2⟩ => ⟨.ok (none, pol2), e ++ [.put f.c f.key] ++ e2, o2⟩
+        | ⟨.err s, e2, o2⟩ => ⟨.err s, e ++ [.put f.c f.key] ++ e2, o2⟩
+      else ⟨.ok (some f, pol'), e, o⟩
+
+/-- state of the table scan of `make_xen_pfn_map_auto` / `_nonauto`
+(src/kdumpfile/elfdump.c): the entry the cursor is in and the bytes left in it -/
+structure ScanSt where
+  cur : Option Fce        -- `fce.cache != NULL`: the entry that is held
+  left : Nat              -- `fce.len`
+
+/-- the `while (pos <= endpos)` loop of `make_xen_pfn_map_*`: records of `entsz`
+bytes from `pos`, `n` of them; `addOk k` says whether `pfn2idx_map_add` accepts
+the k-th record (it allocates).  On a read failure nothing is held (`err_read`),
+on a rejected record the current entry is released (`err_pfn`), at the end the
+last entry is released. -/
+def xenMapScan (cfg : Cfg) (entsz : Nat) (addOk : Nat → Bool) :
+    Nat → Nat → Policy → Nat → ScanSt → List Ext → Out Policy
+  | 0, _, pol, _, st, orc => ⟨.ok pol, fcachePut st.cur, orc⟩
+  | n + 1, k, pol, pos, st, orc =>
+    if st.left < entsz then
+      match fcacheGetFb cfg pol 0 pos entsz orc with
+      | ⟨.stuck, _, _⟩ => stuckOut orc
+      | ⟨.err s, e, o⟩ => ⟨.err s, fcachePut st.cur ++ e, o⟩
+      | ⟨.ok (cur', pol'), e, o⟩ =>
+          let len' := match cur' with | some f => f.len | none => entsz
+          if addOk k then
+            match xenMapScan cfg entsz addOk n (k + 1) pol' (pos + entsz) ⟨cur', len' - entsz⟩ o with
+            | ⟨.stuck, _, _⟩ => stuckOut orc
+            | ⟨r, e2, o2⟩ => ⟨r, fcachePut st.cur ++ e ++ e2, o2⟩
+          else ⟨.err .system, fcachePut st.cur ++ e ++ fcachePut cur', o⟩
+    else
+      if addOk k then
+        xenMapScan cfg entsz addOk n (k + 1) pol (pos + entsz) ⟨st.cur, st.left - entsz⟩ orc
+      else ⟨.err .system, fcachePut st.cur, orc⟩
 
 /-- `put_fces(fces, n)` releases from the last entry down; `held` lists the
 entries most recent first, which is exactly that order -/
@@ -474,6 +528,96 @@ def addrxlatPutPage (cfg : Cfg) (as addr : Nat) : List Ev :=
 /-- what a successful `addrxlat_get_page` lends to libaddrxlat's read cache -/
 def lentRes (cfg : Cfg) (as addr : Nat) : List Res :=
   [.mem .pio cfg.pioSize, .pin .pc ((addr - addr % cfg.ps) ||| as)]
+
+/-! ## addrxlat/ctx.c: the read cache of a translation context and its callback records -/
+
+/-- a page lent to the read cache: address space and page-aligned address -/
+abbrev Page := Nat × Nat
+
+/-- `struct read_cache`: the slots by array index (`some p`: `buffer.size != 0`,
+the page was obtained through the `get_page` callback and is owed a
+`put_page`), and the MRU ring as the list of slot indices, most recently used
+first (`cache->mru` is its head, `cache->mru->prev` its last element) -/
+structure RdCache where
+  slots : List (Option Page)
+  order : List Nat
+  deriving DecidableEq, Repr
+
+/-- `init_cache` -/
+def rcInit (n : Nat) : RdCache := ⟨List.replicate n none, List.range n⟩
+
+/-- the reuse scan of `get_cache_buf`: first slot, in array order, that holds the page -/
+def rcFind : List (Option Page) → Page → Option Nat
+  | [], _ => none
+  | s :: t, p => if s = some p then some 0 else (rcFind t p).map (· + 1)
+
+/-- `touch_cache_slot` -/
+def rcTouch (rc : RdCache) (i : Nat) : RdCache := { rc with order := i :: rc.order.erase i }
+
+def pageOf (cfg : Cfg) (as addr : Nat) : Page := (as, addr - addr % cfg.ps)
+
+/-- `put_page` of an occupied slot -/
+def slotPut (cfg : Cfg) : Option Page → List Ev
+  | some q => addrxlatPutPage cfg q.1 q.2
+  | none => []
+
+/-- `get_cache_buf` with libkdumpfile's `addrxlat_get_page` as the page source
+(reached through any number of pass-through records): reuse, or evict the LRU
+slot (`put_page`), fetch, and on failure leave the slot empty.  Returns the
+outcome and the read cache afterwards (it changes on failure too). -/
+def getCacheBuf (cfg : Cfg) (pol : Policy) (rc : RdCache) (as addr : Nat) (pages : Nat → PageInfo)
+    (orc : List Ext) : Out Policy × RdCache :=
+  let p := pageOf cfg as addr
+  match rcFind rc.slots p with
+  | some i => (⟨.ok pol, [], orc⟩, rcTouch rc i)
+  | none =>
+    let i := rc.order.getLast?.getD 0
+    let evict := slotPut cfg (rc.slots.getD i none)
+    let out := addrxlatGetPage cfg pol as addr pages orc
+    match out.res with
+    | .ok pol' => (⟨.ok pol', evict ++ out.evs, out.orc⟩, rcTouch { rc with slots := rc.slots.set i (some p) } i)
+    | .err s => (⟨.err s, evict ++ out.evs, out.orc⟩, { rc with slots := rc.slots.set i none })
+    | .stuck => (stuckOut orc, rc)
+
+/-- `cleanup_cache`: every occupied slot, in array order, is given back -/
+def cleanupCache (cfg : Cfg) : List (Option Page) → List Ev
+  | [] => []
+  | s :: t => slotPut cfg s ++ cleanupCache cfg t
+
+/-- a translation context as far as resources go: read cache and the stack of
+callback records (top first; identified by numbers, each `cbSize` bytes) -/
+structure AxCtx where
+  rc : RdCache
+  cbs : List Nat
+  deriving DecidableEq, Repr
+
+/-- `addrxlat_ctx_add_cb` -/
+def ctxAddCb (cbSize : Nat) (x : AxCtx) (id : Nat) (orc : List Ext) : Out Unit × AxCtx :=
+  match orc with
+  | .alloc true :: o => (⟨.ok (), [.malloc .cb cbSize true], o⟩, { x with cbs := id :: x.cbs })
+  | .alloc false :: o => (⟨.err .nomem, [.malloc .cb cbSize false], o⟩, x)
+  | _ => (stuckOut orc, x)
+
+/-- `addrxlat_ctx_del_cb`: if the record is on the stack — wherever — every
+cached page is given back first (it may have come through this record, whose
+owner is about to go away), then the record is unlinked and freed -/
+def ctxDelCb (cfg : Cfg) (cbSize : Nat) (x : AxCtx) (id : Nat) : List Ev × AxCtx :=
+  if id ∈ x.cbs then
+    (cleanupCache cfg x.rc.slots ++ [.free .cb cbSize],
+     ⟨{ x.rc with slots := x.rc.slots.map (fun _ => none) }, x.cbs.erase id⟩)
+  else ([], x)
+
+/-- what the read cache owes -/
+def rcRes (cfg : Cfg) : List (Option Page) → List Res
+  | [] => []
+  | some q :: t => lentRes cfg q.1 q.2 ++ rcRes cfg t
+  | none :: t => rcRes cfg t
+
+/-- the callback records that were allocated -/
+def cbRes (cbSize : Nat) (cbs : List Nat) : List Res := cbs.map (fun _ => Res.mem .cb cbSize)
+
+/-- the MRU ring names existing slots and is not empty -/
+def RdCache.WF (rc : RdCache) : Prop := rc.order ≠ [] ∧ ∀ i ∈ rc.order, i < rc.slots.length
 
 /-! ## ledger semantics -/
 
